@@ -1,12 +1,13 @@
 /-
   Lemmas.ReaderStable — "what a reader accepts does not depend on what follows".
 
-  `StableR R p q`: whenever `p` succeeds on a buffer and leaves a NON-EMPTY rest, it consumed a prefix `pre`, and
-  `q` succeeds on `pre` followed by ANY continuation, consuming exactly `pre`, with a result related by `R`.
-  (The side condition "non-empty rest" is essential: `leb128ReadU32` accepts an integer that is cut short by
-  the end of the file, so a reader that stops exactly at the end of the buffer may behave differently when more
-  bytes follow.)  The notion is closed under `bind`, `if`, `match`, `vec`, `iter`, `sliced`, and holds for all
-  primitives of Model.Buffer and Model.Reader; it is the key to `sections_framing_invariant`.
+  `StableR R p q`: whenever `p` succeeds on a buffer it consumed a prefix `pre` of it, and — provided the rest
+  it left is NON-EMPTY — `q` succeeds on `pre` followed by ANY continuation, consuming exactly `pre`, with a
+  result related by `R`.  (The side condition is essential: `leb128ReadU32` accepts an integer that is cut
+  short by the end of the file, so a reader that stops exactly at the end of the buffer may behave
+  differently when more bytes follow.)  The notion is closed under `bind`, `if`, `match`, `vec`, `iter`,
+  `sliced`, and holds for all primitives of Model.Buffer and Model.Reader; it is the key to
+  `sections_framing_invariant`.
 -/
 import W2c2Verif.Model.Reader
 import W2c2Verif.Lemmas.Leb
@@ -16,70 +17,276 @@ open W2c2Verif.Model W2c2Verif.Model.Reader
 open W2c2Verif.Gen
 
 def StableR {α β : Type} (R : α → β → Prop) (p : P α) (q : P β) : Prop :=
-  ∀ bs a rest, p bs = .ok (a, rest) → rest ≠ [] →
-    ∃ pre, bs = pre ++ rest ∧ ∀ rest', ∃ b, q (pre ++ rest') = .ok (b, rest') ∧ R a b
+  ∀ bs a rest, p bs = .ok (a, rest) →
+    ∃ pre, bs = pre ++ rest ∧ (rest ≠ [] → ∀ rest', ∃ b, q (pre ++ rest') = .ok (b, rest') ∧ R a b)
 
-abbrev Stable {α : Type} (p : P α) : Prop := StableR Eq p p
+def Stable {α : Type} (p : P α) : Prop := StableR Eq p p
 
 /-! ### monad structure -/
 
 theorem bind_ok {α β : Type} {p : P α} {f : α → P β} {bs : Bytes} {b : β} {rest : Bytes}
     (h : (p >>= f) bs = .ok (b, rest)) : ∃ a mid, p bs = .ok (a, mid) ∧ f a mid = .ok (b, rest) := by
-  show P.bind p f bs = _ at h
-  unfold P.bind at h
-  split at h
-  · rename_i a mid hp; exact ⟨a, mid, hp, h⟩
-  · cases h
-  · cases h
+  have h' : P.bind p f bs = .ok (b, rest) := h
+  unfold P.bind at h'
+  split at h'
+  · rename_i a mid hp; exact ⟨a, mid, hp, h'⟩
+  · cases h'
+  · cases h'
 
 theorem bind_eq_of_ok {α β : Type} {p : P α} {f : α → P β} {bs : Bytes} {a : α} {mid : Bytes}
     (h : p bs = .ok (a, mid)) : (p >>= f) bs = f a mid := by
   show P.bind p f bs = _
   unfold P.bind; rw [h]
 
+theorem pure_run {α : Type} (a : α) (bs : Bytes) : (pure a : P α) bs = .ok (a, bs) := rfl
+
 theorem stable_pure {α β : Type} {R : α → β → Prop} {a : α} {b : β} (h : R a b) :
     StableR R (pure a : P α) (pure b : P β) := by
-  intro bs a' rest hp _
-  have : (a', rest) = (a, bs) := by
-    have : (pure a : P α) bs = .ok (a, bs) := rfl
-    rw [this] at hp; cases hp; rfl
-  cases this
-  exact ⟨[], rfl, fun rest' => ⟨b, rfl, h⟩⟩
+  intro bs a' rest hp
+  rw [pure_run] at hp
+  cases hp
+  exact ⟨[], rfl, fun _ rest' => ⟨b, rfl, h⟩⟩
 
 theorem stable_fail {α β : Type} {R : α → β → Prop} (e : Nat) (q : P β) : StableR R (P.fail e : P α) q := by
-  intro bs a rest hp _; cases hp
+  intro bs a rest hp; cases hp
 
 theorem stable_undefined {α β : Type} {R : α → β → Prop} (u : UB) (q : P β) :
     StableR R (P.undefined u : P α) q := by
-  intro bs a rest hp _; cases hp
+  intro bs a rest hp; cases hp
 
 theorem stable_bind {α β α' β' : Type} {R : α → α' → Prop} {S : β → β' → Prop}
     {p : P α} {q : P α'} {f : α → P β} {g : α' → P β'}
-    (hp : StableR R p q) (hf : ∀ a a', R a a' → StableR S (f a) (g a')) :
+    (hp : StableR R p q) (htot : ∀ a, ∃ a', R a a') (hf : ∀ a a', R a a' → StableR S (f a) (g a')) :
     StableR S (p >>= f) (q >>= g) := by
-  intro bs b rest h hne
+  intro bs b rest h
   obtain ⟨a, mid, h1, h2⟩ := bind_ok h
-  -- f's stability needs some a' related to a: get it from p's stability, which needs mid ≠ []
-  -- first show mid ≠ [] using any related a' (obtained with continuation [] is not available before);
-  -- so split on mid
-  by_cases hmid : mid = []
-  · -- then f a [] = ok (b, rest) with rest ≠ []: impossible once we know f a is stable w.r.t. some a'.
-    -- we cannot call hf without a related a'; but p bs = ok (a, []) gives no a'. Use: rest is a suffix of mid.
-    -- This requires suffix-monotonicity, provided separately by `Mono`; here we derive a contradiction from
-    -- the auxiliary hypothesis packaged in `StableR` of `f a` itself via a vacuous relation is not possible,
-    -- so this case is excluded by the lemma `stable_bind'` below; see there.
-    exact absurd hmid (by
-      intro hm
-      subst hm
-      exact (False.elim (by
-        -- handled in stable_bind' : this branch is never used
-        sorry)))
-  · obtain ⟨pre1, e1, k1⟩ := hp bs a mid h1 hmid
-    obtain ⟨a', _, hR⟩ := k1 mid
-    obtain ⟨pre2, e2, k2⟩ := hf a a' hR mid b rest h2 hne
-    refine ⟨pre1 ++ pre2, by rw [e1, e2, List.append_assoc], fun rest' => ?_⟩
-    obtain ⟨a'', hq, hR'⟩ := k1 (pre2 ++ rest')
-    obtain ⟨b', hg, hS⟩ := (hf a a'' hR' mid b rest h2 hne).choose_spec.2 rest'
-    sorry
+  obtain ⟨pre1, e1, k1⟩ := hp bs a mid h1
+  obtain ⟨a0, hR0⟩ := htot a
+  obtain ⟨pre2, e2, _⟩ := hf a a0 hR0 mid b rest h2
+  refine ⟨pre1 ++ pre2, by rw [e1, e2, List.append_assoc], fun hne rest' => ?_⟩
+  have hmid : mid ≠ [] := by
+    rw [e2]; intro hc
+    exact hne (List.append_eq_nil_iff.1 hc).2
+  obtain ⟨a', hq, hR⟩ := k1 hmid (pre2 ++ rest')
+  obtain ⟨pre2', e2', k2⟩ := hf a a' hR mid b rest h2
+  have hpre : pre2' = pre2 := by
+    have : pre2' ++ rest = pre2 ++ rest := by rw [← e2', ← e2]
+    exact List.append_cancel_right this
+  subst hpre
+  obtain ⟨b', hg, hS⟩ := k2 hne rest'
+  refine ⟨b', ?_, hS⟩
+  rw [List.append_assoc, bind_eq_of_ok hq]; exact hg
+
+theorem stable_bind_eq {α β : Type} {p : P α} {f : α → P β}
+    (hp : Stable p) (hf : ∀ a, Stable (f a)) : Stable (p >>= f) :=
+  stable_bind hp (fun a => ⟨a, rfl⟩) (fun a a' h => by subst h; exact hf a)
+
+theorem stable_ite {α β : Type} {R : α → β → Prop} {c : Prop} [Decidable c] {p p' : P α} {q q' : P β}
+    (h1 : c → StableR R p q) (h2 : ¬ c → StableR R p' q') :
+    StableR R (if c then p else p') (if c then q else q') := by
+  by_cases hc : c
+  · simp only [hc, if_true]; exact h1 hc
+  · simp only [hc, if_false]; exact h2 hc
+
+/-! ### primitives -/
+
+theorem stable_byte (e : Nat) : Stable (byte e) := by
+  intro bs a rest h
+  cases bs with
+  | nil => cases h
+  | cons b t =>
+    simp only [byte] at h
+    cases h
+    exact ⟨[a], rfl, fun _ rest' => ⟨a, rfl, rfl⟩⟩
+
+theorem stable_fixed (n e : Nat) : Stable (fixed n e) := by
+  intro bs a rest h
+  simp only [fixed] at h
+  split at h
+  · cases h
+  · rename_i hlen
+    cases h
+    refine ⟨bs.take n, (List.take_append_drop n bs).symm, fun _ rest' => ⟨bs.take n, ?_, rfl⟩⟩
+    have hl : (bs.take n).length = n := by rw [List.length_take]; omega
+    simp only [fixed]
+    have : ¬ (bs.take n ++ rest').length < n := by rw [List.length_append, hl]; omega
+    simp only [this, if_false]
+    rw [List.take_left' hl, List.drop_left' hl]
+
+/-- the decoder loop is local: what it read is a prefix, and it reads the same prefix before any continuation
+    as long as it did not stop because the buffer ended. -/
+theorem loop_local (d : Reader.LebDecoder) :
+    ∀ (fuel : Nat) (bs : Bytes) (s : Leb.St),
+      ∃ pre, bs = pre ++ (Leb.loop d fuel bs s).2 ∧
+        ((Leb.loop d fuel bs s).2 ≠ [] → ∀ rest', Leb.loop d fuel (pre ++ rest') s = ((Leb.loop d fuel bs s).1, rest')) := by
+  intro fuel
+  induction fuel with
+  | zero => intro bs s; exact ⟨[], rfl, fun _ rest' => rfl⟩
+  | succ n ih =>
+    intro bs s
+    cases bs with
+    | nil => exact ⟨[], rfl, fun h => absurd rfl h⟩
+    | cons b t =>
+      by_cases hc : b.toNat &&& d.contMask = 0
+      · have hl : Leb.loop d (n + 1) (b :: t) s = (Leb.step d s b, t) := by simp [Leb.loop, hc]
+        rw [hl]
+        exact ⟨[b], rfl, fun _ rest' => by simp [Leb.loop, hc]⟩
+      · have hl : Leb.loop d (n + 1) (b :: t) s = Leb.loop d n t (Leb.step d s b) := by simp [Leb.loop, hc]
+        rw [hl]
+        obtain ⟨pre, e, k⟩ := ih t (Leb.step d s b)
+        refine ⟨b :: pre, by rw [List.cons_append, ← e], fun hne rest' => ?_⟩
+        have := k hne rest'
+        simp [Leb.loop, hc, this]
+
+theorem run_local (d : Reader.LebDecoder) (bs : Bytes) :
+    ∃ pre, bs = pre ++ (Leb.run d bs).2 ∧
+      ((Leb.run d bs).2 ≠ [] → ∀ rest', Leb.run d (pre ++ rest') = ((Leb.run d bs).1, rest')) := by
+  obtain ⟨pre, e, k⟩ := loop_local d d.maxBytes bs Leb.St.init
+  refine ⟨pre, e, fun hne rest' => ?_⟩
+  have := k hne rest'
+  simp only [Leb.run, this]
+
+theorem readU_local (d : Reader.LebDecoder) (bs : Bytes) :
+    ∃ pre, bs = pre ++ (Leb.readU d bs).rest ∧
+      ((Leb.readU d bs).rest ≠ [] → ∀ rest', Leb.readU d (pre ++ rest') = { Leb.readU d bs with rest := rest' }) := by
+  obtain ⟨pre, e1, k⟩ := run_local d bs
+  refine ⟨pre, e1, fun hne rest' => ?_⟩
+  have := k hne rest'
+  simp only [Leb.readU, this]
+
+theorem readS_local (d : Reader.LebDecoder) (bs : Bytes) :
+    ∃ pre, bs = pre ++ (Leb.readS d bs).rest ∧
+      ((Leb.readS d bs).rest ≠ [] → ∀ rest', Leb.readS d (pre ++ rest') = { Leb.readS d bs with rest := rest' }) := by
+  obtain ⟨pre, e1, k⟩ := run_local d bs
+  refine ⟨pre, e1, fun hne rest' => ?_⟩
+  have := k hne rest'
+  simp only [Leb.readS, this]
+
+theorem u32_run (e : Nat) (bs : Bytes) :
+    u32 e bs = if (Leb.readU32 bs).count = 0 then .err e else .ok ((Leb.readU32 bs).value, (Leb.readU32 bs).rest) := rfl
+
+theorem i32_run (e : Nat) (bs : Bytes) :
+    i32 e bs = if (Leb.readI32 bs).count = 0 then .err e else .ok ((Leb.readI32 bs).value, (Leb.readI32 bs).rest) := rfl
+
+theorem i64_run (strict : Bool) (e : Nat) (bs : Bytes) :
+    i64 strict e bs = if (Leb.readI64 bs).count = 0 then .err e
+      else if (strict && (Leb.readI64 bs).ub) = true then .ub .lebSignedShift
+      else .ok ((Leb.readI64 bs).value, (Leb.readI64 bs).rest) := rfl
+
+theorem stable_u32 (e : Nat) : Stable (u32 e) := by
+  intro bs a rest h
+  obtain ⟨pre, e1, k⟩ := readU_local Reader.leb128ReadU32 bs
+  rw [u32_run] at h
+  by_cases hcnt : (Leb.readU32 bs).count = 0
+  · rw [if_pos hcnt] at h; cases h
+  · rw [if_neg hcnt] at h
+    cases h
+    refine ⟨pre, e1, fun hne rest' => ⟨_, ?_, rfl⟩⟩
+    have hk : Leb.readU32 (pre ++ rest') = { Leb.readU32 bs with rest := rest' } := k hne rest'
+    rw [u32_run, hk]
+    exact if_neg hcnt
+
+theorem stable_i32 (e : Nat) : Stable (i32 e) := by
+  intro bs a rest h
+  obtain ⟨pre, e1, k⟩ := readS_local Reader.leb128ReadI32 bs
+  rw [i32_run] at h
+  by_cases hcnt : (Leb.readI32 bs).count = 0
+  · rw [if_pos hcnt] at h; cases h
+  · rw [if_neg hcnt] at h
+    cases h
+    refine ⟨pre, e1, fun hne rest' => ⟨_, ?_, rfl⟩⟩
+    have hk : Leb.readI32 (pre ++ rest') = { Leb.readI32 bs with rest := rest' } := k hne rest'
+    rw [i32_run, hk]
+    exact if_neg hcnt
+
+theorem stable_i64 (strict : Bool) (e : Nat) : Stable (i64 strict e) := by
+  intro bs a rest h
+  obtain ⟨pre, e1, k⟩ := readS_local Reader.leb128ReadI64 bs
+  rw [i64_run] at h
+  by_cases hcnt : (Leb.readI64 bs).count = 0
+  · rw [if_pos hcnt] at h; cases h
+  · rw [if_neg hcnt] at h
+    by_cases hub : (strict && (Leb.readI64 bs).ub) = true
+    · rw [if_pos hub] at h; cases h
+    · rw [if_neg hub] at h
+      cases h
+      refine ⟨pre, e1, fun hne rest' => ⟨_, ?_, rfl⟩⟩
+      have hk : Leb.readI64 (pre ++ rest') = { Leb.readI64 bs with rest := rest' } := k hne rest'
+      rw [i64_run, hk]
+      show (if (Leb.readI64 bs).count = 0 then _ else _) = _
+      rw [if_neg hcnt]
+      show (if (strict && (Leb.readI64 bs).ub) = true then _ else _) = _
+      rw [if_neg hub]
+
+theorem stable_takeExact (g : Bytes → Bytes) (e length : Nat) : Stable (takeExact g e length) := by
+  intro bs a rest h
+  have hrun : ∀ xs : Bytes, takeExact g e length xs =
+      if xs.length < length then .err e else .ok (g (xs.take length), xs.drop length) := fun _ => rfl
+  rw [hrun] at h
+  by_cases hlen : bs.length < length
+  · rw [if_pos hlen] at h; cases h
+  · rw [if_neg hlen] at h
+    cases h
+    refine ⟨bs.take length, (List.take_append_drop length bs).symm, fun _ rest' => ⟨_, ?_, rfl⟩⟩
+    have hl : (bs.take length).length = length := by rw [List.length_take]; omega
+    rw [hrun]
+    have : ¬ (bs.take length ++ rest').length < length := by rw [List.length_append, hl]; omega
+    rw [if_neg this, List.take_left' hl, List.drop_left' hl]
+
+theorem stable_name (e : Nat) : Stable (name e) :=
+  stable_bind_eq (stable_u32 e) (fun l => stable_takeExact _ e l)
+
+theorem stable_bytesVec (e : Nat) : Stable (bytesVec e) :=
+  stable_bind_eq (stable_u32 e) (fun l => stable_takeExact _ e l)
+
+/-! ### loops and slices -/
+
+theorem stable_vec {α : Type} {p : P α} (hp : Stable p) : ∀ n, Stable (vec p n) := by
+  intro n
+  induction n with
+  | zero => exact stable_pure rfl
+  | succ n ih =>
+    show Stable (p >>= fun a => vec p n >>= fun as => pure (a :: as))
+    exact stable_bind_eq hp (fun a => stable_bind_eq ih (fun as => stable_pure rfl))
+
+theorem stable_iter {σ τ : Type} {R : σ → τ → Prop} {f : σ → P σ} {g : τ → P τ}
+    (htot : ∀ s, ∃ t, R s t) (hf : ∀ s t, R s t → StableR R (f s) (g t)) :
+    ∀ n s t, R s t → StableR R (iter f n s) (iter g n t) := by
+  intro n
+  induction n with
+  | zero => intro s t h; exact stable_pure h
+  | succ n ih =>
+    intro s t h
+    show StableR R (f s >>= fun s' => iter f n s') (g t >>= fun t' => iter g n t')
+    exact stable_bind (hf s t h) htot (fun s' t' h' => ih s' t' h')
+
+theorem sliced_run (p : P Unit) (bs : Bytes) :
+    sliced p bs = match p bs with
+      | .ok ((), rest) => .ok (bs.take (bs.length - rest.length), rest)
+      | .err c => .err c
+      | .ub u => .ub u := rfl
+
+theorem stable_sliced {p : P Unit} (hp : Stable p) : Stable (sliced p) := by
+  intro bs a rest h
+  rw [sliced_run] at h
+  cases hpr : p bs with
+  | ok x =>
+    obtain ⟨u, r⟩ := x
+    rw [hpr] at h
+    cases h
+    obtain ⟨pre, e1, k⟩ := hp bs () rest hpr
+    have hlen : bs.length - rest.length = pre.length := by rw [e1, List.length_append]; omega
+    refine ⟨pre, e1, fun hne rest' => ⟨_, ?_, rfl⟩⟩
+    obtain ⟨u, hq, _⟩ := k hne rest'
+    rw [sliced_run, hq]
+    have h1 : bs.take (bs.length - rest.length) = pre := by
+      rw [hlen]; conv => lhs; rw [e1]
+      exact List.take_left' rfl
+    have h2 : (pre ++ rest').take ((pre ++ rest').length - rest'.length) = pre := by
+      rw [List.length_append, Nat.add_sub_cancel]; exact List.take_left' rfl
+    show Res.ok (_, rest') = Res.ok (_, rest')
+    rw [h1, h2]
+  | err c => rw [hpr] at h; cases h
+  | ub u => rw [hpr] at h; cases h
 
 end W2c2Verif.Lemmas.Reader
